@@ -289,9 +289,13 @@ class Executor:
         seen = set()
         for bases, fn in self.qhyps:
             terms = {}
-            for b in bases:
-                if b.id in self.touched:
-                    terms.update(self.touched[b.id][1])
+            if bases is None:      # index-space hypothesis: instantiate at every index touched on any list
+                for _, (_, d) in self.touched.items():
+                    terms.update(d)
+            else:
+                for b in bases:
+                    if b.id in self.touched:
+                        terms.update(self.touched[b.id][1])
             cands = {}
             for key, t in terms.items():
                 for d in (-1, 0):
@@ -404,26 +408,27 @@ class Executor:
         self.assume_guarded(n == 0, dom == cod)
         self.assume_guarded(n > 0, ldom(T.I(0)) == dom)
         self.assume_guarded(n > 0, lcod(n - 1) == cod)
-        self.add_qhyp([base] + list(extra_bases),
+        self.add_qhyp(None if extra_bases is None else [base] + list(extra_bases),
                       lambda i: [(z3.And(0 <= i, i + 1 < n), lcod(i) == ldom(i + 1))])
 
-    def sym_diagram(self, name, wf=True):
+    def sym_diagram(self, name, wf=True, n=None, dom=None, cod=None, global_inst=False):
         """a monoidal.Diagram; with wf=True it satisfies the representation invariant by
         construction (boxes[i] := layers[i].box, offsets[i] := len(layers[i].left)) and the
         chain conditions of its layers are hypotheses"""
-        n = z3.Int(name + '.n')
-        arrow = self.sym_arrow(name, wf=False, length=n)
+        n = z3.Int(name + '.n') if n is None else n
+        arrow = self.sym_arrow(name, wf=False, length=n, dom=dom, cod=cod)
         Ll, Lb, Lr = arrow._fns
         if wf:
             bbase = self.register_base(BaseList(name + '.boxes', n, lambda i: VBox(Lb(i)), 'box'))
             obase = self.register_base(BaseList(name + '.offsets', n, lambda i: VInt(z3.Length(Ll(i))), 'int'))
-            self.assume_wfA(arrow, extra_bases=[bbase, obase])
+            self.assume_wfA(arrow, extra_bases=None if global_inst else [bbase, obase])
             d = VDiagram(arrow.dom, arrow.cod, VList.of_base(bbase), VList.of_base(obase), arrow)
         else:
             boxes = self.sym_box_list(name + '.boxes', n)
             offsets = self.sym_int_list(name + '.offsets', n)
             d = VDiagram(arrow.dom, arrow.cod, boxes, offsets, arrow)
         d._n = n
+        d._fns = (Ll, Lb, Lr)
         return d
 
     # ------------------------------------------------------------ lists
@@ -732,7 +737,7 @@ class Interp:
         self.world = world      # World: builtins, attribute / method tables, contracts
 
     # -------------------------------------------------------- functions
-    def call_function(self, node, closure_env, args, kwargs, qualname, loops=None):
+    def call_function(self, node, closure_env, args, kwargs, qualname, loops=None, on_yield=None):
         ex = self.ex
         ex.depth += 1
         if ex.depth > ex.max_depth:
@@ -740,6 +745,7 @@ class Interp:
         env = Env(closure_env)
         self.bind_params(node.args, env, args, kwargs, qualname)
         frame = Frame(qualname, loops or {}, node)
+        frame.on_yield = on_yield
         try:
             try:
                 self.exec_block(self.world.strip(node.body), env, frame)
@@ -1019,8 +1025,9 @@ class Interp:
                 pass
             except _Break:
                 if spec.break_ok:
-                    spec.on_break(self, env)
-                    return
+                    if getattr(spec, 'on_break', None) is not None:
+                        spec.on_break(self, env)
+                    return      # this path leaves the loop through `break` and continues after it
                 raise Unsupported('break in a loop with an invariant')
             spec.check(self, env, z3.simplify(k + 1), 'loop%d.preserved' % ordinal)
             if before is not None:
